@@ -190,9 +190,82 @@ static void check_predicates(const std::string& tag, const RM& A)
 }
 
 // ---------------------------------------------------------------------------------------------
+// products whose factors hold infinities: they arise inside the property's scope when an earlier product of large finite entries overflowed.
+// "entries are sum_k a_ik*b_kj" in IEEE arithmetic: 0*inf is NaN, inf-inf is NaN, and which of NaN / +inf / -inf / finite an entry is does not
+// depend on the order of the terms here (seeded change C04-r6m2 skipped the terms whose left factor is an exact zero).
+static int fp_class(double x) { return std::isnan(x) ? 0 : (x == INFINITY ? 1 : (x == -INFINITY ? 2 : 3)); }
+static void overflowed_factor_case(Rng& rng, unsigned m, unsigned n, unsigned k)
+{
+	RM A(m, n), B(n, k);
+	for(auto& x : A.a)
+		x = rng.coin(0.5) ? rng.sign() * rng.loguni(1e150, 1e250) : (double) rng.irange(-3, 3);
+	for(auto& x : B.a)
+		x = rng.coin(0.5) ? rng.sign() * rng.loguni(1e150, 1e250) : (double) rng.irange(-3, 3);
+	unsigned q = 1 + (unsigned) rng.below(4);
+	RM Z(q, m);
+	for(auto& x : Z.a)
+		x = rng.coin(0.4) ? 0.0 : (rng.coin(0.1) ? -0.0 : (double) rng.irange(-2, 2));
+	Matrix LA = to_lib(A), LB = to_lib(B), LZ = to_lib(Z);
+	Matrix P = LA.Product(LB);	 // finite factors; entries overflow to +-inf
+	RM Pr = from_lib(P);
+	bool has_inf = false;
+	for(double x : Pr.a)
+		has_inf |= std::isinf(x);
+	if(has_inf)
+		mark_nontrivial();
+	auto ieee_product = [](const RM& X, const RM& Y) {
+		RM R(X.r, Y.c);
+		for(unsigned i = 0; i < X.r; i++)
+			for(unsigned j = 0; j < Y.c; j++)
+			{
+				double s = 0.0;
+				for(unsigned t = 0; t < X.c; t++)
+					s += X(i, t) * Y(t, j);
+				R(i, j) = s;
+			}
+		return R;
+	};
+	auto compare = [&](const char* spelling, const RM& got, const RM& X, const RM& Y) {
+		RM ref = ieee_product(X, Y);
+		bool ok = got.r == ref.r && got.c == ref.c;
+		unsigned bi = 0, bj = 0;
+		for(unsigned i = 0; ok && i < ref.r; i++)
+			for(unsigned j = 0; ok && j < ref.c; j++)
+			{
+				bool e = fp_class(got(i, j)) == fp_class(ref(i, j));
+				if(e && fp_class(ref(i, j)) == 3)
+				{
+					double S = 0;
+					for(unsigned t = 0; t < X.c; t++)
+						if(std::isfinite(X(i, t) * Y(t, j)))
+							S += std::fabs(X(i, t) * Y(t, j));
+					e = std::fabs(got(i, j) - ref(i, j)) <= 4 * X.c * EPS * S;
+				}
+				if(!e)
+					ok = false, bi = i, bj = j;
+			}
+		require("product-entries-are-sums-aik-bkj", ok, [&] { return J().str("spelling", spelling).vec("left_row_major", X.a).vec("right_row_major", Y.a).i("left_columns", X.c).i("row", bi).i("column", bj).d("got", ok ? 0.0 : got(bi, bj)).d("ieee_sum", ok ? 0.0 : ref(bi, bj)); }, (std::string("product-entries-are-sums-aik-bkj:non-finite-factor:") + spelling).c_str());
+	};
+	compare("A.Product(B) overflowing", Pr, A, B);
+	compare("Z.Product(P)", from_lib(LZ.Product(P)), Z, Pr);
+	compare("Z * P", from_lib(LZ * P), Z, Pr);
+	// the reversed product of the transposes holds the same entries
+	RM Pt(Pr.c, Pr.r), Zt(Z.c, Z.r);
+	for(unsigned i = 0; i < Pr.r; i++)
+		for(unsigned j = 0; j < Pr.c; j++)
+			Pt(j, i) = Pr(i, j);
+	for(unsigned i = 0; i < Z.r; i++)
+		for(unsigned j = 0; j < Z.c; j++)
+			Zt(j, i) = Z(i, j);
+	compare("Transpose(P).Product(Transpose(Z))", from_lib(P.Transpose().Product(LZ.Transpose())), Pt, Zt);
+}
+
+// ---------------------------------------------------------------------------------------------
 // one algebra case for the shape triple (m,n,k)
 static void algebra_case(Rng& rng, unsigned m, unsigned n, unsigned k)
 {
+	if(rng.coin(0.06))
+		overflowed_factor_case(rng, m, n, k);
 	int mode = rng.irange(0, 3);
 	RM A = rand_matrix(rng, m, n, mode), A2 = rand_matrix(rng, m, n, mode), B = rand_matrix(rng, n, k, mode);
 	std::vector<double> u = rand_vector(rng, n, mode), v = rand_vector(rng, n, mode), w = rand_vector(rng, m, mode);
